@@ -684,6 +684,8 @@ func (s *UDPSession) SetRateLimit(bytesPerSecond uint32) {
 
 // SetLogger configures the kcp trace logger
 func (s *UDPSession) SetLogger(mask KCPLogType, logger logoutput_callback) {
+	s.mu.Lock()
+	defer s.mu.Unlock()
 	s.kcp.SetLogger(mask, logger)
 }
 
@@ -904,6 +906,8 @@ func (s *UDPSession) GetOOBMaxSize() int {
 		return 0
 	}
 	// Packet layout: | conv (4B) | OOB payload |
+	s.mu.Lock()
+	defer s.mu.Unlock()
 	return int(s.kcp.mtu) - convSize
 }
 
